@@ -173,7 +173,7 @@ structure Pair (P : Type) where
   downAdds : Nat := 0
   /-- environment flag: the downstream peer failed an htlc it had already fulfilled. -/
   envBad : Bool := false
-  deriving Repr
+  deriving Repr, DecidableEq
 
 inductive Ev (P : Type) where
   -- peers
@@ -319,6 +319,8 @@ def run (s : Pair P) : List (Ev P) → Option (Pair P)
 def Quiescent (s : Pair P) : Prop :=
   s.up.stable = true ∧ s.down.stable = true ∧ s.mbAdd = false ∧ s.mbResp = none ∧
   (s.up ≠ .absent → s.addAcked = true) ∧ (s.resp ≠ none → s.respAcked = true)
+
+instance (s : Pair P) : Decidable (Quiescent s) := by unfold Quiescent; infer_instance
 
 end Step
 
